@@ -132,3 +132,73 @@ Theorem balances_spec vals a :
 Proof. unfold balances. rewrite balances_gen. reflexivity. Qed.
 End Balances.
 Print Assumptions fold_last_touch. Print Assumptions run_nodup. Print Assumptions balances_spec.
+
+(* ---------- the property in its own words ---------- *)
+Section UtxoWords.
+Variable K V : Type.
+Variable keqb : K -> K -> bool.
+Hypothesis keqb_spec : forall a b, reflect (a = b) (keqb a b).
+Definition touches (k:K) (e:event K V) : bool := match e with Spend _ _ k' => keqb k k' | Create _ _ k' _ => keqb k k' end.
+
+Lemma last_touch_untouched k evs cur : forallb (fun e => negb (touches k e)) evs = true -> last_touch K V keqb k evs cur = cur.
+Proof.
+  revert cur. induction evs as [|e r IH]; intros cur H; [reflexivity|]. cbn in H. apply andb_true_iff in H as [He Hr].
+  destruct e as [k'|k' v]; cbn [last_touch touches] in *; apply negb_true_iff in He; rewrite He; now apply IH.
+Qed.
+
+(* an outpoint is listed with value v  iff  the history splits as  before ++ [Create k v] ++ after  where nothing in `after` touches k:
+   created in the range, not referenced by any later input, not re-created later (the later creation would be the one listed) *)
+Theorem listed_iff k v evs :
+  lookup K V keqb k (run K V keqb evs) = Some v <->
+  exists before after, evs = before ++ Create K V k v :: after /\ forallb (fun e => negb (touches k e)) after = true.
+Proof.
+  rewrite (fold_last_touch K V keqb keqb_spec). split.
+  - assert (G : forall evs cur, last_touch K V keqb k evs cur = Some v ->
+               (cur = Some v /\ forallb (fun e => negb (touches k e)) evs = true) \/
+               exists before after, evs = before ++ Create K V k v :: after /\ forallb (fun e => negb (touches k e)) after = true).
+    { clear evs. induction evs as [|e r IH]; intros cur H; [left; split; [exact H|reflexivity]|].
+      destruct e as [k'|k' v']; cbn [last_touch] in H.
+      - destruct (IH _ H) as [[Hc Hr]|(b & a & -> & Ha)].
+        + destruct (keqb k k') eqn:E; [discriminate|]. left. split; [exact Hc|]. cbn. now rewrite E.
+        + right. exists (Spend K V k' :: b), a. split; [reflexivity|exact Ha].
+      - destruct (IH _ H) as [[Hc Hr]|(b & a & -> & Ha)].
+        + destruct (keqb_spec k k') as [<-|Hne].
+          * right. exists [], r. inversion Hc; subst. split; [reflexivity|exact Hr].
+          * left. split; [exact Hc|]. cbn. destruct (keqb_spec k k'); [contradiction|exact Hr].
+        + right. exists (Create K V k' v' :: b), a. split; [reflexivity|exact Ha]. }
+    intro H. destruct (G evs None H) as [[Hc _]|Hex]; [discriminate|exact Hex].
+  - intros (b & a & -> & Ha).
+    assert (G : forall b cur, last_touch K V keqb k (b ++ Create K V k v :: a) cur = Some v).
+    { clear b. induction b as [|e r IH]; intro cur.
+      - cbn [app last_touch]. destruct (keqb_spec k k); [|contradiction]. now apply last_touch_untouched.
+      - destruct e; cbn [app last_touch]; apply IH. }
+    apply G.
+Qed.
+End UtxoWords.
+
+Section BalancesMore.
+Variable A : Type.
+Variable aeqb : A -> A -> bool.
+Hypothesis aeqb_spec : forall a b, reflect (a = b) (aeqb a b).
+Lemma add_bal_keys a v b x : In x (map fst (add_bal A aeqb a v b)) <-> x = a \/ In x (map fst b).
+Proof.
+  induction b as [|[a' s] r IH]; cbn.
+  - split; [intros [H|[]]; left; congruence|intros [H|[]]; left; congruence].
+  - destruct (aeqb_spec a a') as [->|Hne]; cbn.
+    + split; [intros [H|H]; [left; congruence|right; now right]|intros [H|[H|H]]; [left; congruence|left; exact H|now right]].
+    + rewrite IH. split; [intros [H|[H|H]]; [right; now left|now left|right; now right]|intros [H|[H|H]]; [right; now left|now left|right; now right]].
+Qed.
+Lemma add_bal_nodup a v b : NoDup (map fst b) -> NoDup (map fst (add_bal A aeqb a v b)).
+Proof.
+  induction b as [|[a' s] r IH]; intro H; cbn; [constructor; [intros []|constructor]|].
+  inversion H as [|? ? Hn Hr]; subst. destruct (aeqb_spec a a') as [->|Hne]; cbn; [constructor; assumption|].
+  constructor; [|now apply IH]. intro Hin. apply add_bal_keys in Hin as [->|Hin]; [congruence|contradiction].
+Qed.
+(* every address is listed at most once *)
+Theorem balances_nodup vals : NoDup (map fst (balances A aeqb vals)).
+Proof.
+  unfold balances. assert (G : forall b, NoDup (map fst b) -> NoDup (map fst (fold_left (fun b e => add_bal A aeqb (fst e) (snd e) b) vals b))).
+  { induction vals as [|e r IH]; intros b H; [exact H|]. cbn. apply IH. now apply add_bal_nodup. }
+  apply G. constructor.
+Qed.
+End BalancesMore.
